@@ -660,8 +660,8 @@ def observe(case):
     import warnings
     import xarray as xr
     warnings.filterwarnings("ignore")
-    res = dict(case=case, status="ok", modified=[], owner_modified=[], shares=[], shares_meta=[], probe_modified=[],
-               identity=[], notes=[])
+    res = dict(case=case, status="ok", modified=[], owner_modified=[], shares=[], shares_meta=[], shares_comp=[],
+               probe_modified=[], identity=[], notes=[])
     try:
         f, I, kw = build(case)
     except Exception as ex:
@@ -718,6 +718,8 @@ def observe(case):
                     msg = f"{olab} ~ {ilab}"
                     if msg not in res["shares_meta"] and len(res["shares_meta"]) < 12:
                         res["shares_meta"].append(msg)
+                    if [okind, n, ikind] not in res["shares_comp"]:
+                        res["shares_comp"].append([okind, n, ikind])
     # (3) identity
     if isinstance(out, xr.DataArray):
         res["out_backend"] = type(out.data).__name__
@@ -999,6 +1001,240 @@ def run_primitive_probes(r, used):
         and not (u in fb.PRIMS and u.startswith("np.")))
 
 
+# ------------------------------------------------------------------------------------------------ wrapper-level probes
+def component_sharing(out, data_src, coords_src, attrs_src):
+    """(cells shared, coordinate memory shared, attrs dict shared) between the result of an xarray primitive and
+    the sources it was built from; None when the result is no raster object"""
+    import xarray as xr
+    outs = []
+
+    def coll(o):
+        if isinstance(o, xr.DataArray):
+            outs.append(o)
+        elif isinstance(o, xr.Dataset):
+            outs.extend(o[k] for k in o.data_vars)
+        elif isinstance(o, (tuple, list)):
+            for x in o:
+                coll(x)
+    coll(out)
+    if not outs:
+        return None
+    src_coord_bufs = []
+    if coords_src is not None:
+        for cn, cv in coords_src.coords.items():
+            a = cv.variable._data if isinstance(cv.variable._data, np.ndarray) else cv.data
+            if isinstance(a, np.ndarray):
+                src_coord_bufs.append(a)
+    d = c = a = False
+    for o in outs:
+        if data_src is not None and isinstance(o.data, np.ndarray) and o.data.size and np.shares_memory(o.data, data_src):
+            d = True
+        for cn, cv in o.coords.items():
+            arr = cv.variable._data if isinstance(cv.variable._data, np.ndarray) else cv.data
+            if not isinstance(arr, np.ndarray) or (cn in o.indexes and not arr.flags.writeable):
+                continue
+            if any(np.shares_memory(arr, b) for b in src_coord_bufs) or \
+                    (data_src is not None and np.shares_memory(arr, data_src)):
+                c = True
+        if attrs_src is not None and o.attrs is attrs_src:
+            a = True
+    return d, c, a
+
+
+def wrapper_probes():
+    """(row of the wrapper-level table, spelling, probe: source raster -> (result, data source, coords source,
+    attrs source))"""
+    import copy as cp
+    import xarray as xr
+
+    def fresh(s):
+        return np.zeros(s.shape)
+
+    def ctor(s):
+        a = fresh(s)
+        return xr.DataArray(a, coords=s.coords, dims=s.dims, attrs=s.attrs), a, s, s.attrs
+
+    def ctor_dict(s):
+        a = fresh(s)
+        return xr.DataArray(a, dims=s.dims, coords={c: s[c] for c in s.coords}, attrs=dict(s.attrs)), a, s, s.attrs
+
+    def ctor_raw(s):
+        a = fresh(s)
+        return xr.DataArray(a, dims=s.dims, coords={c: (s[c].dims, s[c].data) for c in s.coords},
+                            attrs=s.attrs), a, s, s.attrs
+
+    def ctor_star(s):
+        a = np.zeros((2,) + s.shape)
+        return xr.DataArray(a, dims=("stats",) + tuple(s.dims), coords={"stats": [0, 1], **s.coords}, attrs=s.attrs), a, s, s.attrs
+
+    def with_data(deep):
+        def f(s):
+            a = fresh(s)
+            return (s.copy(data=a) if deep is None else s.copy(deep=deep, data=a)), a, s, s.attrs
+        return f
+
+    def obj(fn):
+        return lambda s: (fn(s), s.data, s, s.attrs)
+    P = [
+        ("DataArray", "DataArray(a, coords=s.coords, dims=s.dims, attrs=s.attrs)", ctor),
+        ("DataArray", "DataArray(a, coords={c: s[c]}, attrs=dict(s.attrs))", ctor_dict),
+        ("DataArray", "DataArray(a, coords={c: (dims, s[c].data)})", ctor_raw),
+        ("DataArray", "DataArray(a, coords={'stats': …, **s.coords})", ctor_star),
+        ("DataArray", "DataArray(s)", obj(lambda s: xr.DataArray(s))),
+        ("copy(deep)", "s.copy()", obj(lambda s: s.copy())),
+        ("copy(deep)", "s.copy(deep=True)", obj(lambda s: s.copy(deep=True))),
+        ("copy(deep)", "copy.deepcopy(s)", obj(lambda s: cp.deepcopy(s))),
+        ("copy(shallow)", "s.copy(deep=False)", obj(lambda s: s.copy(deep=False))),
+        ("copy(shallow)", "copy.copy(s)", obj(lambda s: cp.copy(s))),
+        ("copy(deep,data)", "s.copy(deep=True, data=a)", with_data(True)),
+        ("copy(deep,data)", "s.copy(data=a)", with_data(None)),
+        ("copy(shallow,data)", "s.copy(deep=False, data=a)", with_data(False)),
+        ("copy(?)", "s.copy(deep=flag)", obj(lambda s: s.copy(deep=bool(s.shape[0] % 2)))),
+        ("copy(?)", "s.copy(deep=not flag)", obj(lambda s: s.copy(deep=not bool(s.shape[0] % 2)))),
+        ("astype", "s.astype('f4')", obj(lambda s: s.astype("f4"))),
+        ("astype", "s.astype(s.dtype)", obj(lambda s: s.astype(s.dtype))),
+        ("astype(nocopy)", "s.astype(s.dtype, copy=False)", obj(lambda s: s.astype(s.dtype, copy=False))),
+        ("astype(nocopy)", "s.astype('f4', copy=False)", obj(lambda s: s.astype("f4", copy=False))),
+        ("arith", "s * 2", obj(lambda s: s * 2)), ("arith", "-s", obj(lambda s: -s)), ("arith", "s > 0", obj(lambda s: s > 0)),
+        ("arith", "s + s", obj(lambda s: s + s)), ("arith", "np.sqrt(s)", obj(lambda s: np.sqrt(s))),
+        ("arith", "np.maximum(s, 0)", obj(lambda s: np.maximum(s, 0))),
+        ("arith", "s.where(s > 0)", obj(lambda s: s.where(s > 0))), ("arith", "s.clip(0, 1)", obj(lambda s: s.clip(0, 1))),
+        ("arith", "s.max()", obj(lambda s: s.max())), ("arith", "s.mean('y')", obj(lambda s: s.mean("y"))),
+        ("arith", "xr.where(s > 0, s, 0)", obj(lambda s: xr.where(s > 0, s, 0))),
+        ("arith", "s.fillna(0)", obj(lambda s: s.fillna(0))), ("arith", "s.round()", obj(lambda s: s.round())),
+        ("viewlike", "s.T", obj(lambda s: s.T)), ("viewlike", "s.isel(y=slice(0, 2))", obj(lambda s: s.isel(y=slice(0, 2)))),
+        ("viewlike", "s.rename('q')", obj(lambda s: s.rename("q"))), ("viewlike", "s.assign_attrs(k=1)", obj(lambda s: s.assign_attrs(k=1))),
+        ("viewlike", "s.assign_coords(z=1)", obj(lambda s: s.assign_coords(z=1))),
+        ("viewlike", "s.to_dataset(name='q')", obj(lambda s: s.to_dataset(name="q"))),
+        ("viewlike", "s.compute()", obj(lambda s: s.compute())), ("viewlike", "s.squeeze()", obj(lambda s: s.squeeze())),
+        ("viewlike", "s.transpose('x', 'y')", obj(lambda s: s.transpose("x", "y"))),
+        ("viewlike", "s[1:, :2]", obj(lambda s: s[1:, :2])),
+        ("viewlike", "s.sel(y=[1], method='nearest')", obj(lambda s: s.sel(y=[1], method="nearest"))),
+        ("like", "xr.zeros_like(s)", obj(lambda s: xr.zeros_like(s))), ("like", "xr.ones_like(s)", obj(lambda s: xr.ones_like(s))),
+        ("like", "xr.full_like(s, 1)", obj(lambda s: xr.full_like(s, 1))),
+    ]
+    return P
+
+
+def probe_rasters():
+    rng = random.Random(5)
+    for i, dt in enumerate(("int8", "uint16", "int64", "float32", "float64")):
+        for j, lay in enumerate(LAYOUTS):
+            meta = dict(coords=["scalar", "aux2d", "nonindex1d", "cattrs"], cdtype=DTYPES[(3 * i + j) % len(DTYPES)],
+                        clayout=LAYOUTS[(i + j) % 4], attrs=("nested", "arrays", "plain", "nested")[j])
+            r, _, _ = mk_raster(rng, dt, lay, "numpy", nan=False, rname="elev", meta=meta)
+            yield f"{dt}/{lay}/coords:{meta['cdtype']}/{meta['clayout']}", r
+
+
+def run_wrapper_probes(r):
+    """the wrapper-level primitive table (facts_bufprog.WPRIMS = Gen.primTable of the Lean side) against the real
+    xarray: every row with several spellings, every DataArray method, every numpy function of the table applied to a
+    DataArray"""
+    import warnings
+    import xarray as xr
+    import facts_bufprog as fb
+    # (1) the table the Lean programs were built with is the table probed here
+    try:
+        reply = Driver().ask(["primtable"])[0]
+        lean_table = {row.split("|")[0]: tuple(row.split("|")[1:]) for row in reply.split(";") if row}
+    except Exception as ex:
+        lean_table = None
+        r.notes.append("driver unavailable for primtable: " + repr(ex)[:100])
+    if lean_table is not None and lean_table != {k: tuple(v) for k, v in fb.WPRIMS.items()}:
+        r.disagree("wrapper-table", dict(side="Gen.primTable vs facts_bufprog.WPRIMS"), str(sorted(fb.WPRIMS.items()))[:300],
+                   str(sorted(lean_table.items()))[:300])
+    table = fb.WPRIMS
+    comps = ("cells", "coordinates", "attrs dict")
+    seen = {}
+
+    def judge_row(row, spelling, tag, got, exact):
+        for mode, sh, comp in zip(table[row], got, comps):
+            seen.setdefault((row, comp), set()).add(sh)
+            if mode in ("fresh", "deep") and sh:
+                r.disagree("wrapper-table", dict(row=row, spelling=spelling, raster=tag, component=comp),
+                           "the result shares this component with its source", f"classified {mode}")
+            if exact and mode == "shallow" and not sh:
+                r.disagree("wrapper-table", dict(row=row, spelling=spelling, raster=tag, component=comp),
+                           "the result does not share this component", "classified shallow")
+    rasters = list(probe_rasters())
+    for row, spelling, fn in wrapper_probes():
+        for tag, src in rasters:
+            try:
+                with warnings.catch_warnings():
+                    warnings.simplefilter("ignore")
+                    out, dsrc, csrc, asrc = fn(src)
+                got = component_sharing(out, dsrc, csrc, asrc)
+            except Exception as ex:
+                r.tag("wprobe-error:" + spelling[:30])
+                r.notes.append(f"wrapper probe {spelling} on {tag}: {ex!r}"[:160])
+                continue
+            if got is None:
+                continue
+            r.case(f"wprobe:{spelling}:{tag}", nontrivial=True, tags=[f"wprobe:{row}"])
+            judge_row(row, spelling, tag, got, exact=True)
+    # (2) every public method of DataArray: what the translator does with the name must cover what xarray does
+    auto = 0
+    for name in sorted(n for n in dir(xr.DataArray) if not n.startswith("_")):
+        for tag, src in rasters[::7]:
+            f = getattr(src, name, None)
+            if not callable(f):
+                break
+            got = None
+            for args, kw in (((), {}), ((src > 0,), {}), ((0,), {}), ((0, 1), {}), (("y",), {}), (({"y": 0},), {}),
+                             ((), {"y": 0}), (("f4",), {}), ((src,), {}), ((), {"name": "q"}), (("q",), {})):
+                try:
+                    with warnings.catch_warnings():
+                        warnings.simplefilter("ignore")
+                        got = component_sharing(f(*args, **kw), src.data, src, src.attrs)
+                    if got is not None:
+                        break
+                except Exception:
+                    continue
+            if got is None:
+                continue
+            auto += 1
+            if name in ("copy", "astype"):
+                continue            # probed above, one spelling per row
+            row = fb.XMETHODS.get(name)
+            if row is not None:
+                judge_row(row, f"DataArray.{name}(…)", tag, got, exact=False)
+            elif fb.METHODS.get(name) in ("alloc", "scalar", "mview", "astype") and any(got):
+                r.disagree("wrapper-table", dict(method=name, raster=tag), f"the result shares (cells, coords, attrs) = {got}",
+                           f"the translator treats .{name}() as the ndarray method ({fb.METHODS.get(name)})")
+    # (3) numpy functions that hand a DataArray back for a DataArray must be known as such (else their result would be
+    #     taken for a bare array without coordinates)
+    tag, src = rasters[-1]
+    missing = []
+    for name, cls in sorted(fb.PRIMS.items()):
+        if not name.startswith("np.") or cls not in ("alloc", "copy", "view", "mview"):
+            continue
+        obj = np
+        try:
+            for part in name.split(".")[1:]:
+                obj = getattr(obj, part)
+        except AttributeError:
+            continue
+        if not callable(obj):
+            continue
+        for args in ((src,), (src, src), (src, 1), (src, 0), (src > 0, src, src)):
+            try:
+                with warnings.catch_warnings():
+                    warnings.simplefilter("ignore")
+                    out = obj(*args)
+            except Exception:
+                continue
+            parts = out if isinstance(out, (tuple, list)) else [out]
+            if any(isinstance(p, (xr.DataArray, xr.Variable, xr.Dataset)) for p in parts) and name[3:] not in fb.NP_XR:
+                missing.append(name)
+            break
+    for name in missing:
+        r.disagree("wrapper-table", dict(function=name), "returns a DataArray when it is given one",
+                   "not listed in facts_bufprog.NP_XR (its result would be taken for a bare array)")
+    r.extra["wrapper_probes"] = dict(rows=len(table), spellings=len(wrapper_probes()), rasters=len(rasters),
+                                     methods_probed=auto, resolutions={f"{row}:{comp}": sorted(v) for (row, comp), v in seen.items()
+                                                                       if table[row][comps.index(comp)] == "maybe"})
+
+
 # ------------------------------------------------------------------------------------------------ the check
 def gen_report():
     rep = json.load(open(os.path.join(LEAN, "XrsVerif", "Gen", "report.json")))
@@ -1017,8 +1253,9 @@ def predictions(funcs):
             out[f] = None
             continue
         kv = dict(t.split("=", 1) for t in line.split(" "))
-        out[f] = dict(ok=kv["ok"] == "true", write=[int(x) for x in kv["write"].split(",") if x],
-                      ret=[int(x) for x in kv["ret"].split(",") if x], unknown=kv["unknown"] == "true",
+        ints = lambda t: [int(x) for x in kv.get(t, "").split(",") if x]
+        out[f] = dict(ok=kv["ok"] == "true", write=ints("write"), ret=ints("ret"), retc=ints("retc"), reta=ints("reta"),
+                      k=int(kv.get("k", "0")), unknown=kv["unknown"] == "true",
                       meta=kv["meta"] == "true", view=kv["view"] == "true", size=int(kv["size"]))
     return out, None
 
@@ -1106,14 +1343,32 @@ def judge(r, res, entries, preds):
     if c["backend"] == "numpy" and preds.get(key) and key in entries:
         params = entries[key]["params"]
         p = preds[key]
+        npar = p["k"] // 3 if p.get("k") else len(params)
+
+        def slots(n):
+            """the input buffers of parameter n: cells, coordinates, attrs"""
+            i = params.index(n)
+            return {i, npar + i, 2 * npar + i}
         written = {x.split(":")[0].split("[")[0] for x in res["modified"] if "values changed" in x} | \
-                  {o.split(".")[0] for o in res["owner_modified"]}
+                  {o.split(".")[0] for o in res["owner_modified"] if "coord:" not in o}
         for n in written:
             if n in params and params.index(n) not in p["write"]:
                 r.disagree("prediction-vs-observation", c, f"input {n} was written", f"program predicts writes only to {p['write']}")
+        # wrapper level: a changed coordinate / attribute of an input must be a predicted write of one of its buffers
+        meta_written = {x.split(":")[0].split("[")[0] for x in res["modified"]
+                        if ": coordinate " in x or ": attrs" in x or ": coords " in x or ": name " in x} | \
+                       {o.split(".")[0] for o in res["owner_modified"] if "coord:" in o}
+        for n in meta_written:
+            if n in params[:npar] and not (slots(n) & set(p["write"])):
+                r.disagree("prediction-vs-observation", c, f"coordinates / attrs of input {n} were written",
+                           f"program predicts writes only to {[params[i] for i in p['write']]}")
         for n in set(res["shares"]):
             if n in params and params.index(n) not in p["ret"]:
                 r.disagree("prediction-vs-observation", c, f"result shares memory with {n}", f"program predicts aliases only of {p['ret']}")
+        for okind, n, ikind in res.get("shares_comp", []):
+            if n in params[:npar] and not (slots(n) & set(p["ret"] + p["retc"] + p["reta"])) and key not in VIEWS:
+                r.disagree("prediction-vs-observation", c, f"the result's {okind} shares memory with a {ikind} buffer of {n}",
+                           f"program predicts that the result may alias only {[params[i] for i in p['ret'] + p['retc'] + p['reta']]}")
 
 
 def run(r, full=False):
@@ -1140,14 +1395,16 @@ def run(r, full=False):
         for u in e.get("unclassified", []):
             r.tag("unclassified:" + u)
     run_primitive_probes(r, used)
+    run_wrapper_probes(r)
     r.extra["phase_s"]["primitive_probes"] = round(time.time() - t_start, 1)
     preds, err = predictions(funcs)
     if err:
         r.notes.append("driver unavailable: " + err)
     bad = [f for f, p in preds.items() if p and not p["ok"]]
     badmeta = [f for f, p in preds.items() if p and not p["meta"]]
-    r.extra["buffer_programs"] = {f: dict(size=p["size"], may_write=p["write"], may_return=p["ret"], ok=p["ok"], meta=p["meta"])
-                           for f, p in preds.items() if p}
+    r.extra["buffer_programs"] = {f: dict(size=p["size"], may_write=p["write"], may_return=p["ret"],
+                                          may_return_coords=p["retc"], may_return_attrs=p["reta"], ok=p["ok"], meta=p["meta"])
+                                  for f, p in preds.items() if p}
     r.extra["rejected_by_checker"] = bad
     r.extra["meta_not_conforming"] = badmeta
     if bad or badmeta:
